@@ -133,7 +133,56 @@ static std::string pop_json(const POp& p)
     return std::string("{\"op\":\"") + OPN[p.op] + "\",\"a\":" + std::to_string(p.a) + ",\"b\":" + std::to_string(p.b) + ",\"c\":" + std::to_string(p.c) + "}";
 }
 
-using SOH = SearchableObjectHolder<Cell, int>;
+// the type tag is a user type: comparing two tags is user code (a scheduling point, so a comparison made outside the map lock
+// meets concurrent mutators) and a destroyed tag is recognisable (a comparison against a type list that was already released)
+struct Tag {
+    int v;
+    uint32_t magic = 0x7A67u;
+    Tag(int x = 0): v(x) {}  // NOLINT: implicit on purpose, the call sites pass small integers
+    Tag(const Tag& o): v(o.v) { o.alive("copied tag"); }
+    Tag& operator=(const Tag& o)
+    {
+        o.alive("assigned-from tag");
+        v = o.v;
+        return *this;
+    }
+    ~Tag() { magic = 0xDEADu; }
+    void alive(const char* what) const
+    {
+        if (magic != 0x7A67u) vrf::violation("oracle:type_tag_used_after_destruction", std::string("{\"what\":\"") + what + "\"}");
+    }
+    friend bool operator==(const Tag& a, const Tag& b)
+    {
+        vrf::user_point();
+        a.alive("compared tag");
+        b.alive("compared tag");
+        return a.v == b.v;
+    }
+    // the rest of what an int offers, so that a library change that orders or hashes tags still builds against this harness
+    friend bool operator!=(const Tag& a, const Tag& b) { return !(a == b); }
+    friend bool operator<(const Tag& a, const Tag& b)
+    {
+        vrf::user_point();
+        a.alive("compared tag");
+        b.alive("compared tag");
+        return a.v < b.v;
+    }
+    friend bool operator>(const Tag& a, const Tag& b) { return b < a; }
+    friend bool operator<=(const Tag& a, const Tag& b) { return !(b < a); }
+    friend bool operator>=(const Tag& a, const Tag& b) { return !(a < b); }
+    friend std::ostream& operator<<(std::ostream& os, const Tag& t) { return os << t.v; }
+};
+namespace std {
+template<>
+struct hash<Tag> {
+    size_t operator()(const Tag& t) const
+    {
+        t.alive("hashed tag");
+        return std::hash<int>()(t.v);
+    }
+};
+}  // namespace std
+using SOH = SearchableObjectHolder<Cell, Tag>;
 
 static void run_thread(SOH& soh, int tid, const std::vector<POp>& script, std::vector<LinOp>& hist,
                        std::vector<std::shared_ptr<Cell>>& kept)
